@@ -558,19 +558,18 @@ func boundOfArg(x ast.BaseTerm, varRanges map[ast.Variable]ast.BaseTerm, nameTri
 		case symbols.Map.Symbol:
 			var keyTpes []ast.BaseTerm
 			var valTpes []ast.BaseTerm
-			for i := 0; i < len(z.Args); i++ {
+			// A trailing key without a value (wrong arity) is left to evaluation to report.
+			for i := 0; i+1 < len(z.Args); i += 2 {
 				keyTpes = append(keyTpes, boundOfArg(z.Args[i], varRanges, nameTrie))
-				i++
-				valTpes = append(valTpes, boundOfArg(z.Args[i], varRanges, nameTrie))
+				valTpes = append(valTpes, boundOfArg(z.Args[i+1], varRanges, nameTrie))
 			}
 			return symbols.NewMapType(symbols.UpperBound(nil /*TODO*/, keyTpes), symbols.UpperBound(nil /*TODO*/, valTpes))
 
 		case symbols.Struct.Symbol:
 			var fields []ast.BaseTerm
-			for i := 0; i < len(z.Args); i++ {
+			for i := 0; i+1 < len(z.Args); i += 2 {
 				fields = append(fields, z.Args[i])
-				i++
-				fields = append(fields, boundOfArg(z.Args[i], varRanges, nameTrie))
+				fields = append(fields, boundOfArg(z.Args[i+1], varRanges, nameTrie))
 			}
 
 			return symbols.NewStructType(fields...)
